@@ -10,7 +10,8 @@ print('py2coq: %d definitions, rejected: %s' % (len(r['sigs']), r['errors']))
 common.ensure_makefile()
 import json, os
 claimed = [c['property_id'] for c in json.load(open('/verif/MANIFEST.json'))['checks']]
-srcs = ['Gen/Prims.vo', 'Gen/Seq.vo', 'Model/Trace.vo'] + ['Properties/%s.vo' % p for p in claimed if os.path.exists('/verif/coq/Properties/%s.v' % p)]
+import glob
+srcs = ['Gen/Prims.vo', 'Gen/Seq.vo', 'Model/Trace.vo'] + sorted('Properties/' + os.path.basename(f)[:-2] + '.vo' for p in claimed for f in glob.glob('/verif/coq/Properties/%s*.v' % p))
 extra = '/verif/coq/setup_targets.txt'          # further .vo targets (models imported only by case files)
 if os.path.exists(extra): srcs += [l.strip() for l in open(extra) if l.strip() and not l.startswith('#')]
 b = common.build(srcs, timeout=3000)
